@@ -363,12 +363,30 @@ Proof.
     + cbn in Hq. congruence.
 Qed.
 
+(* since the repair of the colliding-identifier defect (DESIGN 8.15) distinct enumeration names are a consequence of
+   acceptance, no longer a side condition *)
+Lemma nodupb_app_l (l m : list string) : nodupb str_eqb (l ++ m) = true -> nodupb str_eqb l = true /\ forall x, In x m -> ~ In x l.
+Proof.
+  intros H. apply nodupb_str in H. split.
+  - clear -H. induction l as [|a l IH]; [reflexivity|]. cbn in H. inversion H as [|? ? Hn Hd]; subst. cbn [nodupb].
+    apply andb_true_iff. split; [|apply IH; exact Hd]. apply negb_true_iff. apply not_true_iff_false. intros Hex.
+    apply existsb_exists in Hex. destruct Hex as (y & Hy & Hq). apply str_eqb_eq in Hq. subst y. apply Hn. apply in_or_app. left. exact Hy.
+  - intros x Hx Hl. clear -H Hx Hl. induction l as [|a l IH]; [destruct Hl|]. cbn in H. inversion H as [|? ? Hn Hd]; subst.
+    destruct Hl as [->|Hl]; [apply Hn; apply in_or_app; right; exact Hx|exact (IH Hd Hl)].
+Qed.
+Lemma gri_enum_names sp c ri : gen_routing_info sp c = Ok ri -> enum_names_nodupb c = true.
+Proof.
+  intros H. destruct (gri_names sp c ri H) as (Hn & _). rewrite map_app in Hn. destruct (nodupb_app_l _ _ Hn) as (H1 & H2).
+  unfold enum_names_nodupb. cbv zeta. rewrite map_map in H1. rewrite H1. cbn [andb]. apply negb_true_iff. apply not_true_iff_false.
+  intros Hex. apply existsb_exists in Hex. destruct Hex as (y & Hy & Hq). apply str_eqb_eq in Hq. subst y.
+  apply (H2 "NumEndpoints"); [left; reflexivity|]. rewrite map_map. exact Hy.
+Qed.
+
 Lemma c09_deps_among_src (sp : oracle) d g c ri n nt :
   build d = Ok g -> compile d g = Ok c -> gen_routing_info sp c = Ok ri -> emit c ri = Ok n -> d_algo d = SRC ->
-  enum_names_nodupb c = true ->
   forall e, In e (c09_deps n nt) -> In e (src_deps sp c d ri n nt (all_pairs c)).
 Proof.
-  intros Hb Hc Hri He Ha Hnd e Hin.
+  intros Hb Hc Hri He Ha e Hin. pose proof (gri_enum_names sp c ri Hri) as Hnd.
   assert (Hcd : c_desc c = d) by apply (compile_desc d g c Hc).
   unfold c09_deps in Hin. apply in_flat_map in Hin. destruct Hin as ((s & t) & Hst & Hin).
   unfold ordered_pairs in Hst. apply in_flat_map in Hst. destruct Hst as (s' & Hs' & Hst). apply in_flat_map in Hst.
@@ -422,11 +440,10 @@ Theorem model_tree_C09_src_gen (sp : oracle) (B : nat) (d : desc) (g : graph) (c
   contract sp g c B ->
   first_hopb sp g c Req = true -> first_hopb sp g c Rsp = true ->
   names_sepb g Req = true -> names_sepb g Rsp = true -> single_attachb g c = true -> links_typedb g c = true ->
-  enum_names_nodupb c = true ->
   tree_certb g dp = true ->
   C09_on n.
 Proof.
-  intros Hb Hc Hri He Ha Hcon F1 F2 N1 N2 H2 H3 Hnd Hcert nt Hnt.
+  intros Hb Hc Hri He Ha Hcon F1 F2 N1 N2 H2 H3 Hcert nt Hnt.
   assert (Hac : acyclic (c09_deps n nt)).
   { intros v Hp.
     assert (Hok : net_ok d nt) by (destruct Hnt as [-> | ->]; [left|right; left]; reflexivity).
@@ -434,7 +451,7 @@ Proof.
     assert (Hfh : first_hopb sp g c nt = true) by (destruct Hnt as [-> | ->]; assumption).
     apply (hw_tree_acyclic_src_gen sp B d g c ri n nt dp Hok Hb Hc Hri He Ha Hcon Hfh Hns H2 H3 Hcert (all_pairs c)
              (fun s0 t H => conj (proj1 (all_pairs_spec c s0 t H)) (proj1 (proj2 (all_pairs_spec c s0 t H)))) v).
-    eapply path_mono; [|exact Hp]. apply (c09_deps_among_src sp d g c ri n nt Hb Hc Hri He Ha Hnd). }
+    eapply path_mono; [|exact Hp]. apply (c09_deps_among_src sp d g c ri n nt Hb Hc Hri He Ha). }
   split; [exact Hac|]. intros W Hsub Hall. eapply acyclic_no_deadlock; eauto.
 Qed.
 
@@ -442,7 +459,6 @@ Theorem model_tree_C09_src_nx (d : desc) (g : graph) (c : compiled) (ri : rinfo)
   build d = Ok g -> compile d g = Ok c -> gen_routing_info sp_nx c = Ok ri -> emit c ri = Ok n -> d_algo d = SRC ->
   first_hopb sp_nx g c Req = true -> first_hopb sp_nx g c Rsp = true ->
   names_sepb g Req = true -> names_sepb g Rsp = true -> single_attachb g c = true -> links_typedb g c = true ->
-  enum_names_nodupb c = true ->
   tree_certb g dp = true ->
   C09_on n.
 Proof. intros Hb Hc Hri He Ha. exact (model_tree_C09_src_gen sp_nx (nxB g) d g c ri n dp Hb Hc Hri He Ha (contract_nx d g c Hb Hc)). Qed.
